@@ -151,3 +151,15 @@ func (m *Model) Check(lines []string) (*Disagreement, error) {
 	}
 	return nil, nil
 }
+
+// OrdStats asks the driver for the ordered-delivery refinement counters of the trace replayed last
+// (steps that satisfied Ord.stepOk, steps outside the theorem's hypotheses, steps on which only the
+// clock assumption failed).
+func (m *Model) OrdStats() (checked, excluded, stamps int) {
+	outs, err := m.Replay([]string{"ordstats"})
+	if err != nil || len(outs) != 1 {
+		return
+	}
+	fmt.Sscanf(outs[0], "R checked=%d excluded=%d stamps=%d", &checked, &excluded, &stamps)
+	return
+}
